@@ -509,4 +509,32 @@ theorem hasIntArr_append_left (c : Call) (junk : PDict) (h : ({ c with kw := c.k
   simp only [Call.hasIntArr, Bool.or_eq_false_iff] at h ⊢
   refine ⟨h.1, (hasIntArrKVs_false_iff _).2 fun p hp => (hasIntArrKVs_false_iff _).1 h.2 p (by simp [hp])⟩
 
+
+/-- `kw` has every key of `p` (a subclass `__init__` passes its COMPLETE parameter set: `try_value.__init__` always passes
+`repeat, sleep, return_value, value, verbose`, `loops` its `types`, `pd2np` its `exc`) -/
+def Covers (kw p : PDict) : Prop := ∀ k, (p.lookup k).isSome → (kw.lookup k).isSome
+
+theorem update_covered_eqv (p kw : PDict) (hn : (kw.map (·.1)).Nodup) (hc : Covers kw p) :
+    PDict.Eqv (p.update kw) kw := by
+  intro k
+  rw [lookup_update_nodup _ _ hn]
+  cases hk : kw.lookup k with
+  | some v => simp
+  | none =>
+    cases hp : p.lookup k with
+    | none => simp
+    | some v =>
+      have := hc k (by simp [hp])
+      simp [hk] at this
+
+theorem covers_update (kw p u : PDict) (hu : (u.map (·.1)).Nodup) (h1 : Covers kw p) (h2 : Covers kw u) :
+    Covers kw (p.update u) := by
+  intro k hk
+  rw [lookup_update_nodup _ _ hu] at hk
+  cases hl : u.lookup k with
+  | some v => exact h2 k (by simp [hl])
+  | none =>
+    simp only [hl, Option.none_or] at hk
+    exact h1 k hk
+
 end Pyg
